@@ -1179,3 +1179,178 @@ Proof.
   - unfold bit_list in *. destruct (len <=? 0); discriminate.
   - unfold bit_list in *. destruct (len <=? 0); congruence.
 Qed.
+
+(* ==================================================================================================== *)
+(* H. Morgan identifiers *)
+
+Section MorganRename.
+  Variable h : list Z -> Z.
+  Variable s : Z -> Z.
+  Hypothesis s_inj : forall x y, s x = s y -> x = y.
+  Let ren (d : list (Z * Z)) : list (Z * Z) := map (fun e => (s (fst e), snd e)) d.
+
+  Lemma morgan_atom_rename g d idx tpl :
+    morgan_atom h (rename_mol s g) (ren d) (s idx) tpl = morgan_atom h g d idx tpl.
+  Proof.
+    unfold morgan_atom. rewrite (nbrs_rename s s_inj), map_map. do 4 f_equal.
+    apply map_ext. intros [n b]. cbn [fst snd]. unfold ident, ren. rewrite (zget_rename_id s s_inj). reflexivity.
+  Qed.
+
+  Lemma morgan_step_rename g d : morgan_step h (rename_mol s g) (ren d) = ren (morgan_step h g d).
+  Proof.
+    unfold morgan_step. unfold ren at 2 3. rewrite !map_map. apply map_ext. intros [n t]. cbn [fst snd].
+    rewrite morgan_atom_rename. reflexivity.
+  Qed.
+
+  Lemma morgan_iter_rename g n : forall d, morgan_iter h (rename_mol s g) n (ren d) = map ren (morgan_iter h g n d).
+  Proof.
+    induction n as [|n IH]; intro d; cbn [morgan_iter map]; [reflexivity|].
+    rewrite morgan_step_rename, IH. reflexivity.
+  Qed.
+
+  Lemma skipn_map' {A B} (f : A -> B) n : forall l, skipn n (map f l) = map f (skipn n l).
+  Proof. induction n as [|n IH]; intros [|a l]; cbn; try reflexivity. apply IH. Qed.
+
+  Lemma ren_values d : map snd (ren d) = map snd d.
+  Proof. unfold ren. rewrite map_map. reflexivity. Qed.
+
+  (* the dictionaries of the renumbered molecule are the renumbered dictionaries: atom s(x) gets the identifier of x
+     at every radius *)
+  Theorem morgan_hash_dict_rename g lo hi :
+    morgan_hash_dict h (rename_mol s g) lo hi =
+    match morgan_hash_dict h g lo hi with Ok ds => Ok (map ren ds) | Err e => Err e end.
+  Proof.
+    unfold morgan_hash_dict. destruct (lo <? 1); [reflexivity|]. destruct (hi <? lo); [reflexivity|].
+    rewrite (atom_identifiers_rename s). fold (ren (atom_identifiers g)).
+    rewrite morgan_iter_rename, map_length, skipn_map'. reflexivity.
+  Qed.
+
+  (* ... hence the collection of hash values is literally the same list, and so are the folded bits *)
+  Theorem morgan_hash_list_rename g lo hi :
+    morgan_hash_list h (rename_mol s g) lo hi = morgan_hash_list h g lo hi.
+  Proof.
+    unfold morgan_hash_list. rewrite morgan_hash_dict_rename. destruct (morgan_hash_dict h g lo hi) as [ds|e]; [|reflexivity].
+    f_equal. induction ds as [|d ds IH]; cbn [map flat_map]; [reflexivity|]. rewrite ren_values, IH. reflexivity.
+  Qed.
+
+  Theorem morgan_bit_list_rename g lo hi len nab :
+    morgan_bit_list h (rename_mol s g) lo hi len nab = morgan_bit_list h g lo hi len nab.
+  Proof. unfold morgan_bit_list. rewrite morgan_hash_list_rename. reflexivity. Qed.
+End MorganRename.
+
+(* sorted() of the (bond order, identifier) pairs makes the identifier independent of the neighbour order *)
+Definition pair_le (p q : Z * Z) : Prop := pair_leb p q = true.
+
+Lemma pair_leb_total p q : pair_le p q \/ pair_le q p.
+Proof.
+  unfold pair_le, pair_leb. destruct p as [a b], q as [c d]. cbn [fst snd].
+  rewrite (Z.eqb_sym c a). destruct (a =? c) eqn:E.
+  - destruct (Z.leb_spec b d); [left; reflexivity | right; apply Z.leb_le; lia].
+  - apply Z.eqb_neq in E. destruct (Z.ltb_spec a c); [left; reflexivity | right; apply Z.ltb_lt; lia].
+Qed.
+
+Lemma pair_leb_antisym p q : pair_le p q -> pair_le q p -> p = q.
+Proof.
+  unfold pair_le, pair_leb. destruct p as [a b], q as [c d]. cbn [fst snd].
+  rewrite (Z.eqb_sym c a). destruct (a =? c) eqn:E.
+  - apply Z.eqb_eq in E. subst. intros H1 H2. apply Z.leb_le in H1, H2. f_equal. lia.
+  - intros H1 H2. apply Z.ltb_lt in H1, H2. lia.
+Qed.
+
+Lemma pair_leb_trans p q r : pair_le p q -> pair_le q r -> pair_le p r.
+Proof.
+  unfold pair_le, pair_leb. destruct p as [a b], q as [c d], r as [e f]. cbn [fst snd].
+  destruct (a =? c) eqn:E1, (c =? e) eqn:E2, (a =? e) eqn:E3; intros H1 H2;
+    rewrite ?Z.eqb_eq, ?Z.eqb_neq, ?Z.leb_le, ?Z.ltb_lt in *; lia.
+Qed.
+
+Inductive psorted : list (Z * Z) -> Prop :=
+| ps_nil : psorted []
+| ps_cons p l : Forall (pair_le p) l -> psorted l -> psorted (p :: l).
+
+Lemma insert_pair_perm p l : Permutation (insert_pair p l) (p :: l).
+Proof.
+  induction l as [|q r IH]; cbn; [apply Permutation_refl|].
+  destruct (pair_leb p q); [apply Permutation_refl|].
+  eapply Permutation_trans; [apply perm_skip; exact IH | apply perm_swap].
+Qed.
+
+Lemma insert_pair_sorted p l : psorted l -> psorted (insert_pair p l).
+Proof.
+  induction 1 as [|q r Hq Hs IH]; cbn.
+  - constructor; constructor.
+  - destruct (pair_leb p q) eqn:E.
+    + constructor; [|constructor; assumption]. constructor; [exact E|].
+      eapply Forall_impl; [|exact Hq]. intros x Hx. eapply pair_leb_trans; [exact E | exact Hx].
+    + constructor; [|exact IH].
+      assert (Hqp : pair_le q p) by (destruct (pair_leb_total p q) as [H|H]; [unfold pair_le in H; congruence | exact H]).
+      apply (Permutation_Forall (Permutation_sym (insert_pair_perm p r))). constructor; assumption.
+Qed.
+
+Lemma sort_pairs_sorted l : psorted (sort_pairs l).
+Proof. induction l as [|p l IH]; cbn; [constructor | apply insert_pair_sorted; exact IH]. Qed.
+
+Lemma sort_pairs_permutation l : Permutation (sort_pairs l) l.
+Proof.
+  induction l as [|p l IH]; cbn; [constructor|].
+  eapply Permutation_trans; [apply insert_pair_perm | apply perm_skip; exact IH].
+Qed.
+
+Lemma psorted_unique l : forall l', psorted l -> psorted l' -> Permutation l l' -> l = l'.
+Proof.
+  induction l as [|p l IH]; intros l' Hs Hs' HP.
+  - apply Permutation_nil in HP. subst. reflexivity.
+  - destruct l' as [|q l']; [apply Permutation_sym, Permutation_nil in HP; discriminate|].
+    inversion Hs as [|? ? Hp Hsl]; subst. inversion Hs' as [|? ? Hq Hsl']; subst.
+    assert (E : p = q).
+    { assert (H1 : In p (q :: l')) by (apply (Permutation_in _ HP); left; reflexivity).
+      assert (H2 : In q (p :: l)) by (apply (Permutation_in _ (Permutation_sym HP)); left; reflexivity).
+      destruct H1 as [H1|H1]; [congruence|]. destruct H2 as [H2|H2]; [congruence|].
+      rewrite Forall_forall in Hp, Hq. apply pair_leb_antisym; [apply Hp; exact H2 | apply Hq; exact H1]. }
+    subst q. f_equal. apply IH; [exact Hsl | exact Hsl' | eapply Permutation_cons_inv; exact HP].
+Qed.
+
+Theorem sort_pairs_order_free l l' : Permutation l l' -> sort_pairs l = sort_pairs l'.
+Proof.
+  intro HP. apply psorted_unique; try apply sort_pairs_sorted.
+  eapply Permutation_trans; [apply sort_pairs_permutation|].
+  eapply Permutation_trans; [exact HP | apply Permutation_sym, sort_pairs_permutation].
+Qed.
+
+(* the Morgan update of one atom depends on the multiset of its (bond order, neighbour identifier) pairs only *)
+Theorem morgan_atom_neighbour_order (h : list Z -> Z) g g2 d d2 idx tpl :
+  Permutation (nbrs g idx) (nbrs g2 idx) -> (forall x, ident d x = ident d2 x) ->
+  morgan_atom h g d idx tpl = morgan_atom h g2 d2 idx tpl.
+Proof.
+  intros HP Hd. unfold morgan_atom. do 3 f_equal. apply sort_pairs_order_free.
+  rewrite (map_ext (fun nb => (b_ord (snd nb), ident d (fst nb))) (fun nb => (b_ord (snd nb), ident d2 (fst nb))))
+    by (intro nb; rewrite Hd; reflexivity).
+  apply Permutation_map. exact HP.
+Qed.
+
+(* ==================================================================================================== *)
+(* I. non-vacuity: a concrete well-formed molecule (2-propanol, CC(C)O) on which the hypotheses hold and the
+      functions return what chython returns *)
+Definition ex_atom (n : Z) : atom := mkAtom n None 0 false (Some 0) None.
+Definition ex_b1 : bond := mkBond 1 None.
+Definition ex_mol : mol :=
+  mkMol [(1, ex_atom 6); (2, ex_atom 6); (3, ex_atom 6); (4, ex_atom 8)]
+        [(1, [(2, ex_b1)]); (2, [(1, ex_b1); (3, ex_b1); (4, ex_b1)]); (3, [(2, ex_b1)]); (4, [(2, ex_b1)])].
+
+Lemma example_nonvacuous :
+  wf_mol ex_mol = true /\
+  set_paths (chains ex_mol 1 3) = [[1]; [2]; [2; 1]; [3]; [3; 2]; [3; 2; 1]; [4]; [4; 2]; [4; 2; 1]; [4; 2; 3]] /\
+  chains_seq_loop (chains_fuel ex_mol 3) ex_mol 1 3 = Some (chains_seq ex_mol 1 3) /\
+  (forall x y : Z, 7 - x = 7 - y -> x = y) /\
+  set_z (linear_hash_list hash_ztuple (rename_mol (fun x => 7 - x) ex_mol) 1 3 2) =
+  set_z (linear_hash_list hash_ztuple ex_mol 1 3 2) /\
+  length (set_z (linear_hash_list hash_ztuple ex_mol 1 3 2)) = 9%nat /\
+  morgan_hash_list hash_ztuple ex_mol 1 2 =
+    Ok [-3850700631077715909; -3850700631077715909; -3850700631077715909; 3311492739671872531;
+        6744783386241714987; -713217080876991613; 6744783386241714987; -5079278463555148377] /\
+  fold_bits 1024 3 (-5079278463555148377) = [423; 57; 136].
+Proof.
+  split; [vm_compute; reflexivity|]. split; [vm_compute; reflexivity|]. split; [vm_compute; reflexivity|].
+  split; [intros x y H; lia|]. split; [vm_compute; reflexivity|]. split; [vm_compute; reflexivity|].
+  split; vm_compute; reflexivity.
+Qed.
